@@ -488,6 +488,10 @@ func (pa *path) doSourceStaticSetReady(req defs.PathSourceStaticSetReadyReq) {
 
 	err := subStream.Initialize()
 	if err != nil {
+		// the stream has been created for a source that is refused: take it down again
+		if !pa.conf.AlwaysAvailable {
+			pa.setNotAvailable()
+		}
 		req.Res <- defs.PathSourceStaticSetReadyRes{Err: err}
 		return
 	}
@@ -616,6 +620,10 @@ func (pa *path) doAddPublisher(req defs.PathAddPublisherReq) {
 
 	err := subStream.Initialize()
 	if err != nil {
+		// the stream has been created for a publisher that is refused: take it down again
+		if !pa.conf.AlwaysAvailable {
+			pa.setNotAvailable()
+		}
 		req.Res <- defs.PathAddPublisherRes{Err: err}
 		return
 	}
